@@ -19,14 +19,14 @@ import (
 // ---- configuration text for TLC ----
 
 type cfg struct {
-	Spec        string
-	Constants   map[string]string
-	Constraint  string
-	View        string
-	Invariants  []string
-	Properties  []string
-	Post        string
-	Deadlock    bool
+	Spec       string
+	Constants  map[string]string
+	Constraint string
+	View       string
+	Invariants []string
+	Properties []string
+	Post       string
+	Deadlock   bool
 }
 
 func (c cfg) Text() string {
